@@ -838,7 +838,9 @@ func WithContext(context Context) ParseOption {
 }
 
 func (p *parser) Parse(reader text.Reader, opts ...ParseOption) ast.Node {
+	verifPoint("parse.enter")
 	p.initSync.Do(func() {
+		verifPoint("parse.init.begin")
 		p.config.BlockParsers.Sort()
 		for _, v := range p.config.BlockParsers {
 			p.addBlockParser(v, p.config.Options)
@@ -863,6 +865,7 @@ func (p *parser) Parse(reader text.Reader, opts ...ParseOption) ast.Node {
 		}
 		p.escapedSpace = p.config.EscapedSpace
 		p.config = nil
+		verifPoint("parse.init.end")
 	})
 	c := &ParseConfig{}
 	for _, opt := range opts {
@@ -874,6 +877,7 @@ func (p *parser) Parse(reader text.Reader, opts ...ParseOption) ast.Node {
 	pc := c.Context
 	root := ast.NewDocument()
 	p.parseBlocks(root, reader, pc)
+	verifPoint("parse.blocks.done")
 
 	blockReader := text.NewBlockReader(reader.Source(), nil)
 	p.walkBlock(root, func(node ast.Node) {
@@ -884,6 +888,7 @@ func (p *parser) Parse(reader text.Reader, opts ...ParseOption) ast.Node {
 	}
 
 	// root.Dump(reader.Source(), 0)
+	verifPoint("parse.exit")
 	return root
 }
 
